@@ -342,13 +342,13 @@ example :
 each with its formal reading) is character for character the table that the translator reads from the
 module doc comment of strftime.rs on this run — rows, order, examples, sentences; likewise the
 padding-modifier table; the documentation's own "Same as `…`." sentences (and footnote 5 for `%+`)
-are among the readings; the older name list `documented` is the first column -/
+are among the readings; the older name list `documented` is the first column; footnote 7's example -/
 theorem doc_table_is_source :
     DOC_TABLE = docRows.map (fun r => (r.spec, r.ex, r.descr)) ∧
     DOC_MODIFIERS.map (fun m => (str m.1, m.2)) = docModifiers.map (fun m => ([m.1], m.2.2)) ∧
     (∀ e ∈ DOC_SAME_AS, e ∈ docComposites ∨ e ∈ expansions ∨ e = ("%+", "%Y-%m-%dT%H:%M:%S%.f%:z")) ∧
     (∀ e ∈ docComposites, e ∈ expansions) ∧
-    documented = docRows.map (·.spec) := by decide +kernel
+    documented = docRows.map (·.spec) ∧ DOC_FOOTNOTE7 = footnote7 := by decide +kernel
 
 /-- **the tokenizer gives every documented specifier TEXT the item of its documentation row**:
 `items "%m" = [Numeric Month, zero-padded]`, `items "%e" = [Day, space-padded]`, `%P` lower / `%p`
@@ -423,37 +423,40 @@ theorem specifier_pad_ok :
     | fixed f => rw [h] at k; exact of_decide_eq_true k
     | error => rw [h] at k; exact of_decide_eq_true k
 
-/-- **the Example column** of the documentation, evaluated: for the documentation's example value
-2001-07-08T00:34:60.026490+09:30 every row's specifier prints exactly its example cell — except the
-rows listed in `exampleDivergent` (and the parsing-only `%#z`, and `%t %n %%` whose cell is empty).
-`_partial`: the full statement "every example cell is what formatting prints" is FALSE on the crate,
-see `doc_examples_divergent`. -/
-theorem doc_examples_partial :
-    ∀ r ∈ docRows, r.ex ≠ "" → r.spec ∉ exampleDivergent.map (·.1) → r.spec ∉ exampleParsingOnly →
+/-- **the Example column of the documentation is what formatting prints**: for the documentation's
+example value 2001-07-08T00:34:60.026490+09:30 EVERY row's specifier prints exactly its Example cell
+(rows with a non-empty cell; `%t %n %%` have none) — with the two exceptions the documentation itself
+explains: `%Z` (cell `ACST`; footnote 8: only the offset is printed, "identical to `%:z`": `+09:30`) and
+the parsing-only `%#z` (cannot be formatted).  Footnote 7's example (7 µs with `%f` and `%.f`, as read
+from the source on this run, `doc_table_is_source`) is what the model prints too.  Full statement
+since the repair of finding F31 (/repo 9d96a4b); before it the cells of `%q %U %f` were wrong, see
+`doc_examples_pinned_before_F31`. -/
+theorem doc_examples_ok :
+    (∀ r ∈ docRows, r.ex ≠ "" → r.spec ∉ exampleDivergent.map (·.1) → r.spec ∉ exampleParsingOnly →
       formatItems (some (dateOfYo exYear exOrdinal)) (some exTime) (some (fixedOffsetName exOff, exOff))
-        (items (37 :: str r.spec)) = some (str r.ex) := by decide +kernel
-
-/-- **documentation examples that are not what the crate prints** (kernel-evaluated on the model,
-confirmed on the crate): `%q` example `1`, prints `3` (July); `%U` example `28`, prints `27` (the
-description and footnote 2 give 27: 2001-07-08 is the 27th Sunday of 2001); `%f` example `26490000`,
-prints `026490000` (nine digits, zero padded; footnote 7's `7000` for 7 µs is `000007000`); `%Z`
-example `ACST`, prints the offset `+09:30` (footnote 8 says so); `%#z` cannot be formatted. -/
-theorem doc_examples_divergent :
-    (∀ x ∈ exampleDivergent, ∃ r ∈ docRows, r.spec = x.1 ∧ r.ex ≠ x.2 ∧
+        (items (37 :: str r.spec)) = some (str r.ex)) ∧
+    (∀ x ∈ exampleDivergent,
       formatItems (some (dateOfYo exYear exOrdinal)) (some exTime) (some (fixedOffsetName exOff, exOff))
-        (items (37 :: str x.1)) = some (str x.2)) ∧
-    formatItems (some (dateOfYo exYear exOrdinal)) (some exTime) (some (fixedOffsetName exOff, exOff))
-      (items (str "%#z")) = none ∧
-    formatItems none (some ⟨0, 7000⟩) none (items (str "%f %.f")) = some (str "000007000 .000007") := by
-  refine ⟨?_, by decide +kernel, by decide +kernel⟩
-  intro x hx
-  simp only [exampleDivergent, List.mem_cons, List.mem_nil_iff, or_false] at hx
-  rcases hx with rfl | rfl | rfl | rfl
-  · exact ⟨docRows[3], by decide +kernel, by decide +kernel⟩
-  · exact ⟨docRows[14], by decide +kernel, by decide +kernel⟩
-  · exact ⟨docRows[32], by decide +kernel, by decide +kernel⟩
-  · exact ⟨docRows[44], by decide +kernel, by decide +kernel⟩
+        (items (37 :: str x.1)) = some (str x.2) ∧
+      formatItems (some (dateOfYo exYear exOrdinal)) (some exTime) (some (fixedOffsetName exOff, exOff))
+        (items (str "%:z")) = some (str x.2)) ∧
+    (∀ s ∈ exampleParsingOnly,
+      formatItems (some (dateOfYo exYear exOrdinal)) (some exTime) (some (fixedOffsetName exOff, exOff))
+        (items (37 :: str s)) = none) ∧
+    formatItems none (some ⟨0, 7000⟩) none (items (str "%f")) = some (str DOC_FOOTNOTE7.1) ∧
+    formatItems none (some ⟨0, 7000⟩) none (items (str "%.f")) = some (str DOC_FOOTNOTE7.2) := by
+  decide +kernel
 
+/-- PINNED PRE-FIX DOCUMENTATION (finding F31, repaired by /repo 9d96a4b): the Example cells `%q` = `1`,
+`%U` = `28`, `%f` = `26490000` and footnote 7's `7000` of the documentation before the repair are not
+what formatting prints (July is quarter 3; 2001-07-08 is the 27th Sunday of 2001; `%f` is zero-padded
+to nine digits) — and they are no longer in the table -/
+theorem doc_examples_pinned_before_F31 :
+    (∀ x ∈ exampleBeforeF31,
+      formatItems (some (dateOfYo exYear exOrdinal)) (some exTime) (some (fixedOffsetName exOff, exOff))
+        (items (37 :: str x.1)) ≠ some (str x.2) ∧ ∀ r ∈ docRows, r.spec = x.1 → r.ex ≠ x.2) ∧
+    formatItems none (some ⟨0, 7000⟩) none (items (str "%f")) ≠ some (str footnote7BeforeF31) := by
+  decide +kernel
 
 /-! ### the entry points `NaiveDate / NaiveTime / NaiveDateTime / DateTime ::format` (audit gap MEDIUM-3) -/
 
